@@ -378,9 +378,16 @@ def make_tensor(rec):
         a = c + ct
         if rec.get("psd"):
             a = yastn.tensordot(c, c.conj(), axes=(tuple(range(nh, 2 * nh)), tuple(range(nh, 2 * nh))))
-        return a
+        return _meta_view(rec, a)
     a = yastn.ones(cfg, legs=legs, n=tuple(rec["n"]))
     a._data[:] = _data(g, a._data.size, rec["intdata"])
+    return _meta_view(rec, a)
+
+
+def _meta_view(rec, a):
+    """rec['meta']: groups of native legs meta-fused into the logical legs that rec['axes'] / Uaxis / Vaxis refer to"""
+    if rec.get("meta"):
+        a = a.fuse_legs(axes=tuple(tuple(g_) if len(g_) > 1 else g_[0] for g_ in rec["meta"]), mode="meta")
     return a
 
 
@@ -421,7 +428,17 @@ def gen_fact_case(rng, kind):
         rec["axes"] = [perm[:cut], perm[cut:]]
         rec["sU"] = rng.choice((1, -1)); rec["nU"] = rng.random() < 0.5
         rec["fix_signs"] = rng.random() < 0.2
-        if rng.random() < 0.3:   # position of the new leg in U and V
+        if rec["policy"] == "fullrank" and nd >= 3 and rng.random() < 0.25:
+            # the operand is handed over with two native legs META-fused into one logical leg; axes and Uaxis/Vaxis count logical legs
+            order = list(range(nd)); rng.shuffle(order)
+            groups = [order[:2]] + [[x] for x in order[2:]]
+            rng.shuffle(groups)
+            rec["meta"] = groups
+            nd = nd - 1
+            perm = list(range(nd)); rng.shuffle(perm)
+            cut = rng.randint(1, nd - 1)
+            rec["axes"] = [perm[:cut], perm[cut:]]
+        if rng.random() < (0.7 if rec.get("meta") else 0.3):   # position of the new leg in U and V
             rec["Uaxis"] = rng.randint(-(cut + 1), cut)
             rec["Vaxis"] = rng.randint(-(nd - cut + 1), nd - cut)
     else:
@@ -431,7 +448,11 @@ def gen_fact_case(rng, kind):
         rec["sU"] = rng.choice((1, -1))
         rec["which"] = rng.choice(["LM", "LR"])
         rec["psd"] = rng.random() < 0.3
-        if rng.random() < 0.3:
+        if nh == 2 and rng.random() < 0.3:   # rows and columns META-fused alike: a logical matrix
+            rec["meta"] = [[0, 1], [2, 3]]
+            rec["axes"] = [[0], [1]]
+            nh = 1
+        if rng.random() < (0.7 if rec.get("meta") else 0.3):
             rec["Uaxis"] = rng.randint(-(nh + 1), nh)
     return rec
 
